@@ -1782,7 +1782,7 @@ class _AnsiSettingPoint:
         bracket_pairs = (('', ''), ('[', ']'), ('(', ')'))
 
         # rgb(), fg_rgb(), bg_rgb(), or ul_rgb() with 3 distinct values as decimal or hex
-        match = re.search(r'^((?:fg_)?|(?:bg_)|(?:ul_)|(?:dul_))rgb\(([\[\(]?)\s*(0x)?([0-9a-fA-F]+)\s*,\s*(0x)?([0-9a-fA-F]+)\s*,\s*(0x)?([0-9a-fA-F]+)\s*([\)\]]?)\)$', s)
+        match = re.search(r'^((?:fg_)?|(?:bg_)|(?:ul_)|(?:dul_))rgb\(([\[\(]?)\s*(0x)?([0-9a-fA-F]+)\s*,\s*(0x)?([0-9a-fA-F]+)\s*,\s*(0x)?([0-9a-fA-F]+)\s*([\)\]]?)\)\Z', s)
         if match and (match.group(2), match.group(9)) in bracket_pairs:
             try:
                 r = int(match.group(4), 16 if match.group(3) else 10)
@@ -1794,7 +1794,7 @@ class _AnsiSettingPoint:
             return AnsiFormat.rgb(r, g, b, component_dict.get(match.group(1), ColorComponentType.FOREGROUND))
 
         # rgb(), fg_rgb(), bg_rgb(), or ul_rgb() with 1 value as decimal or hex
-        match = re.search(r'^((?:fg_)?|(?:bg_)|(?:ul_)|(?:dul_))rgb\(([\[\(]?)\s*(0x)?([0-9a-fA-F]+)\s*([\)\]]?)\)$', s)
+        match = re.search(r'^((?:fg_)?|(?:bg_)|(?:ul_)|(?:dul_))rgb\(([\[\(]?)\s*(0x)?([0-9a-fA-F]+)\s*([\)\]]?)\)\Z', s)
         if match and (match.group(2), match.group(5)) in bracket_pairs:
             try:
                 rgb = int(match.group(4), 16 if match.group(3) else 10)
@@ -1804,7 +1804,7 @@ class _AnsiSettingPoint:
             return AnsiFormat.rgb(rgb, component=component_dict.get(match.group(1), ColorComponentType.FOREGROUND))
 
         # color256(), fg_color256(), bg_color256(), or ul_color256() with 1 value as decimal or hex
-        match = re.search(r'^((?:fg_)?|(?:bg_)|(?:ul_)|(?:dul_))colou?r256\(([\[\(]?)\s*(0x)?([0-9a-fA-F]+)\s*([\)\]]?)\)$', s)
+        match = re.search(r'^((?:fg_)?|(?:bg_)|(?:ul_)|(?:dul_))colou?r256\(([\[\(]?)\s*(0x)?([0-9a-fA-F]+)\s*([\)\]]?)\)\Z', s)
         if match and (match.group(2), match.group(5)) in bracket_pairs:
             try:
                 rgb = int(match.group(4), 16 if match.group(3) else 10)
